@@ -44,7 +44,10 @@ UOne == << Base,
         WithArgs(Args(<<Sc(600000, TRUE), Sc(5, FALSE)>>, FALSE)),                                           \* 22 arity
         WithArgs(Args(<<Sc(600000, TRUE), Sc(5, FALSE), Ag2(Sc(700000, TRUE), Sc(2, FALSE))>>, TRUE)),      \* 23 args elided
         WithArgs(Args(<<Sc(600000, TRUE), Sc(5, FALSE), Sc(2, FALSE)>>, FALSE)),                            \* 24 aggregate -> scalar
-        [Base EXCEPT !.smin = 1, !.smax = 1]                            \* 25 sleep of one minute
+        [Base EXCEPT !.smin = 1, !.smax = 1],                           \* 25 sleep of one minute
+        \* 26, 27: creation STACKS of two frames (race reports) that differ in the outer frame only
+        [Base EXCEPT !.created = Cr("c1") \o <<Fr("c2", "c.go", 3, Args(<<>>, FALSE))>>],
+        [Base EXCEPT !.created = Cr("c1") \o <<Fr("c1", "c.go", 4, Args(<<>>, FALSE))>>]
      >>
 
 (* Members of ONE similarity class (at the coarser levels) in which every
@@ -80,18 +83,20 @@ MCTokRank == [t \in {"s1","s2","f","g","h","a.go","b.go","c.go","c1","c2"} |->
 VARIABLES phase, snap, lvl, rev, bmap, i, order, result
 vars == <<phase, snap, lvl, rev, bmap, i, order, result>>
 
-Init == /\ phase = "gen" /\ snap = <<>> /\ lvl = "ExactFlags" /\ rev = FALSE
+Init == /\ phase = "gen" /\ snap = <<>> /\ lvl = "ExactFlags" /\ rev = "asc"
         /\ bmap = {} /\ i = 1 /\ order = <<>> /\ result = <<>>
 
 Pick == /\ phase = "gen" /\ Len(snap) < MaxG
         /\ \E u \in 1..Len(U) : snap' = Append(snap, u)
         /\ UNCHANGED <<phase, lvl, rev, bmap, i, order, result>>
 Go == /\ phase = "gen" /\ snap # <<>>
-      /\ \E l \in LevelSet : \E r \in BOOLEAN : lvl' = l /\ rev' = r
+      /\ \E l \in LevelSet : \E r \in {"asc", "desc", "zig"} : lvl' = l /\ rev' = r
       /\ phase' = "loop" /\ UNCHANGED <<snap, bmap, i, order, result>>
 
 N == Len(snap)
-IdOf(p) == IF rev THEN N + 1 - p ELSE p          \* goroutine id of the p-th printed goroutine
+(* goroutine id of the p-th printed goroutine: ascending, descending, or the first one lowest and
+   the others descending (so that ids inside a bucket arrive neither sorted nor reversed)          *)
+IdOf(p) == CASE rev = "asc" -> p [] rev = "desc" -> N + 1 - p [] OTHER -> IF p = 1 THEN 1 ELSE N + 2 - p
 Sig(p) == U[snap[p]]
 
 (* bucket.go:49-73: find a similar key (map iteration order!) or create one *)
